@@ -2,12 +2,14 @@
    Models: T2J.v (Thrift -> JSON, spec json_of / t2j_spec / t2j_text), J2T.v (JSON -> Thrift, j2t / j2t_text), tied together by
    the common descriptor, the option matching and the domain of model/RoundTrip.v.
    The double printer is a parameter [dlex]; the formatter contract [dlex_contract dlex] (the printed text is a number lexeme that
-   the correctly rounding reader dec2f64 maps back to the same bits) is a HYPOTHESIS of every theorem that involves doubles:
-   the implementation's printer is native assembly (shortest round-trip f64toa) and is checked per output, not proved. *)
+   the correctly rounding reader dec2f64 maps back to the same bits) is a HYPOTHESIS of the theorems stated for an arbitrary
+   printer: the implementation's printer is native assembly (shortest round-trip f64toa) and is checked per output, not proved.
+   For the models' own printer (exact decimal expansion) the contract is PROVED (C13_formatter_contract_exact) and the
+   `_closed` theorems carry no hypothesis about numbers at all. *)
 From Coq Require Import ZArith List Bool Lia.
 From DG Require Import CaseFormat ProtoWireRef ThriftWire ThriftWireProofs Json JsonProofs Num NumProofs Base64 Base64Proofs
                        T2J T2JProofs J2T J2TProofs RoundTrip RoundTripProofs Check02 Check13.
-From DG Require ProtoMsg ProtoMsgProofs P2J J2P RoundTripP RoundTripPProofs Check13b.
+From DG Require ProtoMsg ProtoMsgProofs P2J J2P RoundTripP RoundTripPProofs Check13b F64Exact FloatContracts RoundTripClosed.
 Import ListNotations.
 Local Open Scope Z_scope.
 
@@ -34,6 +36,29 @@ Theorem C13_t2j_j2t_id : f64_exact_contract -> forall D o o' t v n r,
   exists txt, t2j_text o (tdesc_of D n t) v = Some txt /\ j2t_text strict D o' t (txt ++ r) = Ok (encode v).
 Proof. exact t2j_j2t_id. Qed.
 Print Assumptions C13_t2j_j2t_id.
+
+(* ---- the contract DISCHARGED for the model's own printer: no hypothesis left ---- *)
+(* dec2f64 (correct rounding by exact integer arithmetic) maps the exact decimal expansion of every finite binary64 back to its bits *)
+Theorem C13_formatter_contract_exact : forall b, 0 <= b < 2 ^ 64 -> f64_is_finite b = true ->
+  lex2f64 (f64_exact_lexeme b) = Some b.
+Proof. exact F64Exact.f64_exact_contract_holds. Qed.
+Print Assumptions C13_formatter_contract_exact.
+
+Theorem C13_t2j_j2t_id_closed : forall D o o' t v n r,
+  matching_opts o o' -> rt_dom D t v = true -> (depth v <= n)%nat -> Z.of_nat (depth v) <= max_level -> stop r = true ->
+  exists txt, t2j_text o (tdesc_of D n t) v = Some txt /\ j2t_text strict D o' t (txt ++ r) = Ok (encode v).
+Proof. exact RoundTripClosed.t2j_j2t_id_closed. Qed.
+Print Assumptions C13_t2j_j2t_id_closed.
+
+Theorem C13_j2t_t2j_denotes_closed : forall D o o' t v n c,
+  matching_opts o o' -> rt_dom D t v = true -> wf v = true -> (depth v <= n)%nat -> Z.of_nat (depth v) <= max_level ->
+  t2j_text o (tdesc_of D n t) v = Some c ->
+  exists b v' c' j,
+    j2t_text strict D o' t c = Ok b /\ decode_all (tcode t) b = Some v' /\
+    t2j_text o (tdesc_of D n t) v' = Some c' /\
+    json_parse c = Some j /\ json_parse c' = Some j /\ json_same j j = true /\ v' = v /\ c' = c.
+Proof. exact RoundTripClosed.j2t_t2j_denotes_closed. Qed.
+Print Assumptions C13_j2t_t2j_denotes_closed.
 
 (* values without doubles need no contract at all: take the printer that prints nothing useful *)
 (* (every instance below is additionally checked by computation, with no hypothesis) *)
@@ -218,6 +243,26 @@ Theorem C13_p2j_j2p_bytes : f64_lex_contract -> f32_lex_contract -> forall S dis
               decode_top S root b = Some (m_norm m).
 Proof. exact p2j_j2p_bytes. Qed.
 Print Assumptions C13_p2j_j2p_bytes.
+
+(* the same with the formatter contracts discharged (exact printers of P2J.v: double, and float widened to double) *)
+Theorem C13_proto_contracts : f64_lex_contract /\ f32_lex_contract.
+Proof. split; [exact FloatContracts.f64_lex_contract_holds | exact FloatContracts.f32_lex_contract_holds]. Qed.
+Print Assumptions C13_proto_contracts.
+
+Theorem C13_p2j_j2p_denotes_closed : forall S dis root m,
+  schema_names_ok S -> wf_msg S root m = true -> p_dom S LSingular (TMsg root) (VMsg m) = true ->
+  wf_msg S root (m_norm m) = true ->
+  exists j, pjson_of S RoundTripPProofs.p2j_plain root m = Some j /\ pdenote dis S root j = ROk (m_norm m).
+Proof. exact RoundTripClosed.P.p2j_j2p_denotes_closed. Qed.
+Print Assumptions C13_p2j_j2p_denotes_closed.
+
+Theorem C13_p2j_j2p_bytes_closed : forall S dis root m,
+  schema_names_ok S -> wf_msg S root m = true -> p_dom S LSingular (TMsg root) (VMsg m) = true ->
+  wf_msg S root (m_norm m) = true ->
+  exists j b, pjson_of S RoundTripPProofs.p2j_plain root m = Some j /\ j2p_spec dis S root j = ROk b /\
+              decode_top S root b = Some (m_norm m).
+Proof. exact RoundTripClosed.P.p2j_j2p_bytes_closed. Qed.
+Print Assumptions C13_p2j_j2p_bytes_closed.
 
 Theorem C13_m_norm_idem : forall m, m_norm (m_norm m) = m_norm m.
 Proof. exact m_norm_idem. Qed.
